@@ -236,7 +236,8 @@ def run(tier: str) -> int:
                 extra = Extra.forbid
             f: Optional[T.Int]
         for body, what in (({"Config": type("Config", (), {"extra": Extra.allow})}, "allows extra fields"),
-                           ({"__annotations__": {"g": Optional[T.Int]}}, "adds a field")):
+                           ({"__annotations__": {"g": Optional[T.Int]}}, "adds a field"),
+                           ({"retries": 3}, "adds a field without annotation (inferred from its default)")):
             try:
                 type(MetadataSchema)("Loose", (Strict,), dict(body))
                 rep.violation(f"a child of a schema that forbids extra fields {what} and was not refused", {})
